@@ -142,3 +142,10 @@ pub open spec fn emsg_at(d: Seq<u8>, q: int, size: u64, b: EmsgBox) -> bool {
             &&& b.message_data@ == d.subrange(o + n1 + 1 + n2 + 1, q - 8 + size)
         })
 }
+
+// ---- mvex (8.8.1), decode side: the last mehd / trex children on the sibling chain
+pub open spec fn rel_mehd(d: Seq<u8>, x: Option<MehdBox>, g: Option<int>) -> bool { (x is Some <==> g is Some) && (x matches Some(b) ==> mehd_at(d, child_q(d, g->Some_0) - 8, b)) }
+pub open spec fn rel_trex(d: Seq<u8>, x: Option<TrexBox>, g: Option<int>) -> bool { (x is Some <==> g is Some) && (x matches Some(b) ==> trex_at(d, child_q(d, g->Some_0) - 8, b)) }
+pub open spec fn mvex_at(d: Seq<u8>, q: int, size: u64, b: MvexBox) -> bool {
+    rel_mehd(d, b.mehd, child_at(d, q, size, BoxType::MehdBox)) && rel_trex(d, Some(b.trex), child_at(d, q, size, BoxType::TrexBox))
+}
